@@ -5,9 +5,11 @@ from . import common_lru as L
 def run(ctx):
     L.rule_tags(ctx, "R1")
     L.rule_serialization(ctx, "R2")
-    L.rule_emission_guards(ctx, "R3")
     L.rule_netloc_split(ctx, "R4")
-    L.rule_reader(ctx, "R5")
     L.rule_order(ctx, "R6")
-    from .c08 import walk_shape
-    walk_shape(ctx, "R7")
+    from .c08 import model_table
+    model_table(ctx, "R7")
+    L.rule_model(ctx, "R8")
+    ctx.rule("R9", "special hosts (kept as one stem): SPECIAL_HOSTS_RE accepts exactly localhost / dotted quads (optional port) / colon-bearing hex literals as whole strings")
+    from .common_url import rule_special_hosts
+    rule_special_hosts(ctx, "R9")
